@@ -14,7 +14,7 @@ Section Blame.
 Variable bname : bytes. Variable store : ident -> lookup. Variable async_store : bool.
 Notation run := (run bname store async_store).
 Notation step := (step bname store async_store).
-Notation Good := (Good store async_store).
+Notation Good := (Good (srow store) async_store).
 
 (* e is "q's own" in state s *)
 Definition own (q : nat) (s : state) (e : event) : Prop :=
